@@ -189,7 +189,7 @@ def pair_profiles(traces, wdir, tier, seed):
         (pu, dom, per), (pc, _, _) = d["u"], d["c"]
         keep = 1
         if tier == "quick":
-            keep = {"arith8": 40, "conv8": 24, "arithwide": 4, "convwide": 3}.get(base, 1)
+            keep = {"arith8": 40, "conv8": 24, "arithwide": 4, "convwide": 3, "text": 2, "wrap8": 6, "wrapwide": 3}.get(base, 1)
         po = os.path.join(wdir, base + "_pair.ndjson")
         n = 0
         with open(pu) as fu, open(pc) as fc, open(po, "w") as fo:
@@ -228,12 +228,19 @@ def plan_profile(pid, tier, seed):
             dict(name="wrapwide_" + tag, profile=prof, bin="wrap", dom="big", per_shard=4000,
                  args=["--big", "--tier", tier, "--seed", str(seed), "--n", nww]),
         ]
+    for prof, tag in (("unchecked", "u"), ("checked", "c")):
+        gens += [
+            dict(name="math_" + tag, profile=prof, bin="math", dom="big", per_shard=6000,
+                 args=["--topic", "sqrt,log2,ln,exp,pow,powi,sin,cos,tan", "--tier", tier, "--seed", str(seed)]),
+            dict(name="text_" + tag, profile=prof, bin="text", dom="big", per_shard=6000,
+                 args=["--topic", "ties,dec,radix,malformed,fmt", "--tier", tier, "--seed", str(seed)]),
+        ]
     return dict(
-        bins=["arith", "conv", "wrap"], profiles=["unchecked", "checked"], gens=gens, designs=[],
+        bins=["arith", "conv", "wrap", "math", "text"], profiles=["unchecked", "checked"], gens=gens, designs=[],
         post_gen=[pair_profiles],
         nontrivial=lambda line: '"a":0,' not in line and '"a":[0],' not in line,
-        rule="the union corpus of the arithmetic (22 operations x all forms), comparison, conversion, float, codec and Wrapping "
-             "generators is recorded twice, by the harness built with debug-assertions+overflow-checks on ('checked') and off "
+        rule="the union corpus of the arithmetic (22 operations x all forms), comparison, conversion, float, codec, Wrapping, "
+             "parsing, formatting and transcendental generators is recorded twice, by the harness built with debug-assertions+overflow-checks on ('checked') and off "
              "('unchecked'); the two traces are paired record by record and TLC requires every outcome slot to be identical, or the "
              "checked build to panic where PanicAllowed holds (un-prefixed form whose exact result does not fit, zero divisor). "
              "Quick: a 1/40 (8-bit arithmetic), 1/24 (8-bit conversions), 1/4 and 1/3 (wide) sample of the pairs. Non-trivial: operand a != 0.",
